@@ -301,6 +301,10 @@ def check_run(res, ctx=None, draws=12):
     root_pos = ser.pos_str(tree.position)
 
     # (a) arguments at every expanded node of that tree
+    if case.get("report_C") is not None:
+        engine.config.C = C = case["report_C"]
+        if ctx is not None:
+            ctx.count("C-changed-on-the-live-engine-before-reporting")
     nodes = _preorder_expanded(whole)
     rec.solver_calls = []
     outs_impl = []
